@@ -7,6 +7,8 @@ import (
 	"go/constant"
 	"go/token"
 	"go/types"
+	"os"
+	"regexp"
 	"sort"
 	"strings"
 
@@ -242,216 +244,321 @@ func h1(w *World, r *Report) {
 
 // ---- H-2, H-3
 
+// h2h3 evaluates signVote / signProposal on their paths under facts about what
+// CheckHRS answered (helpers expanded, values resolved through helper results), so
+// the verdict does not depend on how the branches are arranged or where Sign and
+// the recorder are called from.
 func h2h3(w *World, r *Report, name string) {
 	fn := needFn(r, "H-2", w, fref{pkgCrypto, "SFilePV", name})
 	if fn == nil {
 		return
 	}
 	key := "crypto.(*SFilePV)." + name
-	checks := w.callsTo(fn, fref{pkgCrypto, "SFilePVLastSignState", "CheckHRS"})
-	signs := w.callsTo(fn, fref{"github.com/tendermint/tendermint/crypto", "PrivKey", "Sign"})
-	// the recorder: the callee that stores the last-sign fields and calls Save()
-	// (whatever its name and receiver)
-	var saves []ssa.CallInstruction
-	var sum *recSummary
-	for _, c := range CallsIn(fn) {
-		if cal := c.Common().StaticCallee(); cal != nil && w.InModule(cal) {
-			if s := w.recordSummary(cal); s != nil {
-				saves = append(saves, c)
-				sum = s
-			}
+	signBytesFn := map[string]string{"signVote": "VoteSignBytes", "signProposal": "ProposalSignBytes"}[name]
+	wantSB := "types." + signBytesFn + "(p0, p1)"
+	wantStep := map[string]string{"signVote": "crypto.voteToStep(p1)", "signProposal": "1"}[name]
+	// is v the signer's last-sign state (its address, or a local copy initialised from it)?
+	lssKind := func(v ssa.Value) string {
+		v = stripConv(v)
+		if fa, ok := v.(*ssa.FieldAddr); ok && w.Canon(fa.X) == "recv" && fieldName(fa.X.Type(), fa.Field) == "LastSignState" {
+			return "pv"
 		}
-	}
-	if len(checks) != 1 || len(signs) != 1 || len(saves) != 1 {
-		r.Undecided("H-2", key+":shape", fmt.Sprintf("expected exactly one CheckHRS call, one PrivKey.Sign call and one call of a function that records the last-sign state and saves it; found %d/%d/%d", len(checks), len(signs), len(saves)), fnSite(w, fn))
-		return
-	}
-	chk, sign, save := checks[0], signs[0], saves[0]
-	c20Recorders[sum.fn] = sum
-	chkV := callValue(chk)
-	same := extractOf(chkV, 0)
-	cerr := extractOf(chkV, 1)
-	if same == nil || cerr == nil {
-		r.Violate("H-2", key+":CheckHRS-results-used", "a result of CheckHRS is discarded", nil, site(w, chk))
-		return
-	}
-	// the receiver of CheckHRS must be a copy (or the address) of pv.LastSignState
-	lssRecv, chkArgs := callRecvArgs(chk.Common())
-	lssOK := false
-	if a, ok := lssRecv.(*ssa.Alloc); ok {
-		// local copy: initial store must be a load of recv.LastSignState
-		if a.Referrers() != nil {
+		if a, ok := v.(*ssa.Alloc); ok && a.Referrers() != nil {
+			n, good := 0, 0
 			for _, ref := range *a.Referrers() {
-				if st, ok := ref.(*ssa.Store); ok && st.Addr == a && w.isFieldLoad(st.Val, "recv", "LastSignState") && instrDominates(st, chk) {
-					lssOK = true
-				}
-			}
-		}
-	} else if w.isFieldLoad(lssRecv, "recv", "LastSignState") {
-		lssOK = true
-	}
-	r.Check(lssOK, "H-2", key+":CheckHRS-on-last-sign-state", "CheckHRS is evaluated on the signer's LastSignState", "CheckHRS is not evaluated on pv.LastSignState", site(w, chk))
-
-	// (a) error of CheckHRS returned before Sign
-	guarded := false
-	for _, g := range w.Guards(fn) {
-		if bo, ok := g.If.Cond.(*ssa.BinOp); ok && (sameValue(bo.X, cerr) || sameValue(bo.Y, cerr)) && g.Protects(sign.Block()) {
-			guarded = true
-		}
-	}
-	r.Check(guarded, "H-2", key+":error-before-sign", "CheckHRS error returns before PrivKey.Sign", "PrivKey.Sign is reachable although CheckHRS returned an error (regression not refused)", site(w, chk), site(w, sign))
-
-	// (b) Sign only when sameHRS is false
-	e, _ := w.underCond(sign.Block(), func(c ssa.Value) bool { return sameValue(c, same) })
-	r.Check(e == -1, "H-2", key+":sign-only-when-not-sameHRS", "PrivKey.Sign is dominated by the sameHRS=false edge", "PrivKey.Sign is reachable when CheckHRS reported the same HRS (two signatures for one height/round/step)", site(w, sign))
-
-	// (c) signature releases
-	var out ssa.Value // the vote / proposal parameter
-	if len(fn.Params) == 3 {
-		out = fn.Params[2]
-	}
-	signV := callValue(sign)
-	sig := extractOf(signV, 0)
-	var sigStores, reuseStores []fieldStore
-	for _, fs := range w.fieldStores(fn) {
-		if fs.Field.Name() != "Signature" {
-			continue
-		}
-		fa := fs.Addr.(*ssa.FieldAddr)
-		if fa.X != out {
-			continue
-		}
-		if sig != nil && sameValue(fs.Val, sig) {
-			sigStores = append(sigStores, fs)
-		} else {
-			reuseStores = append(reuseStores, fs)
-		}
-	}
-	if len(sigStores) == 0 {
-		r.Undecided("H-3", key+":release", "no store of the fresh signature into the message found", fnSite(w, fn))
-	}
-	for _, fs := range reuseStores {
-		// must be the stored signature, under sameHRS and under equality / timestamp-only difference
-		valOK := false
-		if u, ok := stripConv(fs.Val).(*ssa.UnOp); ok && u.Op == token.MUL {
-			if fa, ok := u.X.(*ssa.FieldAddr); ok && fa.X == lssRecv && fieldName(fa.X.Type(), fa.Field) == "Signature" {
-				valOK = true
-			}
-		}
-		r.Check(valOK, "H-2", key+":reuse-value", "the signature re-released on sameHRS is LastSignState.Signature", "a signature other than the stored one is released on the sameHRS path: "+w.Canon(fs.Val), site(w, fs.In))
-		es, _ := w.underCond(fs.In.Block(), func(c ssa.Value) bool { return sameValue(c, same) })
-		ec := w.condHolds(fs.In.Block(), 1, func(c ssa.Value) bool {
-			c = stripConv(c)
-			if call, ok := c.(*ssa.Call); ok && w.callIs(call.Common(), fref{"bytes", "", "Equal"}) {
-				// bytes.Equal(signBytes, lss.SignBytes) in either order
-				a0, a1 := call.Common().Args[0], call.Common().Args[1]
-				return w.isLssField(a0, lssRecv, "SignBytes") || w.isLssField(a1, lssRecv, "SignBytes")
-			}
-			if ex, ok := c.(*ssa.Extract); ok && ex.Index == 1 {
-				if call, ok := ex.Tuple.(*ssa.Call); ok {
-					nm := callName(call.Common())
-					if strings.HasPrefix(nm, "check") && strings.HasSuffix(nm, "OnlyDifferByTimestamp") && w.FuncPkgPath(call.Common().StaticCallee()) == absPkg(pkgCrypto) {
-						return w.isLssField(call.Common().Args[0], lssRecv, "SignBytes")
+				if st, isS := ref.(*ssa.Store); isS && st.Addr == a {
+					n++
+					if w.isFieldLoad(st.Val, "recv", "LastSignState") {
+						good++
 					}
 				}
 			}
+			if n == 1 && good == 1 {
+				return "copy"
+			}
+		}
+		if w.Canon(v) == "recv.LastSignState" {
+			return "pv"
+		}
+		return "other:" + w.Canon(v)
+	}
+	storedField := func(v ssa.Value, f string) bool { // lss.<f> of the state CheckHRS looked at
+		v = stripConv(v)
+		if cv, ok := v.(*ssa.ChangeType); ok {
+			v = cv.X
+		}
+		if cv, ok := v.(*ssa.Convert); ok {
+			v = cv.X
+		}
+		u, ok := v.(*ssa.UnOp)
+		if !ok || u.Op != token.MUL {
 			return false
-		})
-		r.Check(es == 1 && ec, "H-2", key+":reuse-condition", "stored signature released only under sameHRS and (bytes.Equal with the stored SignBytes or only-differ-by-timestamp)", "stored signature released without the same-message test (conflicting data would be signed off)", site(w, fs.In))
+		}
+		fa, ok := u.X.(*ssa.FieldAddr)
+		if !ok || fieldName(fa.X.Type(), fa.Field) != f {
+			return false
+		}
+		k := lssKind(fa.X)
+		return k == "pv" || k == "copy"
 	}
-	if len(reuseStores) == 0 {
-		r.Undecided("H-2", key+":reuse", "no re-release of the stored signature found on the sameHRS path (the property requires the original signature to be returned)", fnSite(w, fn))
-	}
-
-	// H-3: saveSigned dominates release, with the right arguments
-	for _, fs := range sigStores {
-		r.Check(instrDominates(save, fs.In), "H-3", key+":save-before-release", "saveSigned dominates the store of the fresh signature into the message", "the fresh signature is released before the last-sign state is saved", site(w, save), site(w, fs.In))
-	}
-	// every nil-error return after Sign must be dominated by saveSigned
-	okRet := true
-	var badRet ssa.Instruction
-	for _, ex := range exitsAvoiding(posOf(sign), func(in ssa.Instruction) bool { return in == ssa.Instruction(save.(ssa.Instruction)) }, nil) {
-		if ret, ok := ex.(*ssa.Return); ok {
-			if st := w.errState(ret); st == triNil || st == triUnknown {
-				// allowed only if it is the error return of Sign itself
-				if st == triUnknown && w.returnsErrOf(ret, signV) {
-					continue
+	var nRecorders int
+	event := func(in ssa.Instruction) string {
+		switch x := in.(type) {
+		case ssa.CallInstruction:
+			cc := x.Common()
+			switch {
+			case w.callIs(cc, fref{pkgCrypto, "SFilePVLastSignState", "CheckHRS"}):
+				rcv, args := callRecvArgs(cc)
+				var as []string
+				for _, a := range args {
+					as = append(as, w.Canon(a))
 				}
-				okRet = false
-				badRet = ret
+				return "CHK|" + lssKind(rcv) + "|" + strings.Join(as, ", ")
+			case w.callIs(cc, fref{"github.com/tendermint/tendermint/crypto", "PrivKey", "Sign"}):
+				_, args := callRecvArgs(cc)
+				if len(args) == 1 {
+					return "SIGN|" + w.Canon(args[0]) + "|" + w.canonCall(cc, 0)
+				}
+				return "SIGN|?"
+			default:
+				cal := cc.StaticCallee()
+				if cal == nil || !w.InModule(cal) {
+					return ""
+				}
+				sum := w.recordSummary(cal)
+				if sum == nil || len(sum.stores) < 3 {
+					return ""
+				}
+				nRecorders++
+				c20Recorders[sum.fn] = sum
+				get := func(f string) string {
+					if i, ok := sum.fieldParam[f]; ok && i < len(cc.Args) {
+						return w.canonResolved(cc.Args[i])
+					}
+					return "?"
+				}
+				loc := "other"
+				if sum.baseParam < len(cc.Args) {
+					base := cc.Args[sum.baseParam]
+					if sum.viaField {
+						if w.Canon(base) == "recv" {
+							loc = "pv"
+						}
+					} else {
+						loc = lssKind(base)
+					}
+				}
+				return "REC|" + get("Height") + "|" + get("Round") + "|" + get("Step") + "|" + get("SignBytes") + "|" + get("Signature") + "|" + loc
+			}
+		case *ssa.Store:
+			fa, ok := x.Addr.(*ssa.FieldAddr)
+			if !ok || w.Canon(fa.X) != "p1" {
+				return ""
+			}
+			switch fieldName(fa.X.Type(), fa.Field) {
+			case "Signature":
+				if storedField(x.Val, "Signature") {
+					return "OUT|stored"
+				}
+				return "OUT|" + w.canonResolved(x.Val)
+			case "Timestamp":
+				return "TS"
 			}
 		}
+		return ""
 	}
-	if okRet {
-		r.OK("H-3", key+":no-success-without-save", "no success return is reachable after Sign without passing saveSigned", site(w, sign))
-	} else {
-		r.Violate("H-3", key+":no-success-without-save", "a success return is reachable after PrivKey.Sign without saveSigned", nil, site(w, sign), site(w, badRet))
+	run := func(facts ...atom) ([]pathEnd, bool) {
+		fe := w.newFactEval(nil, facts...)
+		saved := w.branchMarkers
+		w.branchMarkers = false
+		e := &enumerator{w: w, eval: fe.eval, event: event, max: 4000, complete: true, evCache: map[ssa.Instruction]string{}, hasEv: map[*ssa.Function]int{}, pathSensitiveEvents: true}
+		var out []pathEnd
+		e.walkFn(fn, nil, 0, func(ev []string, ret *ssa.Return, term string) {
+			out = append(out, pathEnd{append([]string(nil), ev...), term, ret})
+		})
+		w.cur = nil
+		w.branchMarkers = saved
+		return out, e.complete
 	}
-	// the recorder's arguments, in terms of its summary: which actual value lands
-	// in which field, and which object is updated
-	sargs := save.Common().Args
-	_, signArgs := callRecvArgs(sign.Common())
-	arg := func(f string) ssa.Value {
-		if i, ok := sum.fieldParam[f]; ok && i < len(sargs) {
-			return sargs[i]
-		}
-		return nil
-	}
-	argsOK := len(chkArgs) == 3 && len(signArgs) == 1 && sig != nil
-	if argsOK {
-		for i, f := range []string{"Height", "Round", "Step"} {
-			a := arg(f)
-			argsOK = argsOK && a != nil && sameValue(a, chkArgs[i])
-		}
-		sb, sg := arg("SignBytes"), arg("Signature")
-		argsOK = argsOK && sb != nil && sg != nil && sameValue(sb, signArgs[0]) && sameValue(sg, sig)
-	}
-	r.Check(argsOK, "H-3", key+":save-arguments", sum.fn.Name()+" records the checked (height, round, step), the signed bytes and the signature", sum.fn.Name()+" does not record the values that were checked and signed", site(w, save))
-	// the object updated must be the signer's own LastSignState (the memory the
-	// next CheckHRS reads), not a copy of it
-	locOK, locWhy := false, ""
-	if sum.baseParam < len(sargs) {
-		base := stripConv(sargs[sum.baseParam])
-		pv := ssa.Value(fn.Params[0])
-		switch {
-		case sum.viaField && base == pv:
-			locOK = true
-		case !sum.viaField:
-			if fa, ok := base.(*ssa.FieldAddr); ok && stripConv(fa.X) == pv && fieldName(fa.X.Type(), fa.Field) == "LastSignState" {
-				locOK = true
-			} else if _, isAlloc := base.(*ssa.Alloc); isAlloc {
-				locWhy = "the state is recorded into a local copy of pv.LastSignState: the signer's in-memory state, which the next CheckHRS reads, is not advanced"
-			} else {
-				locWhy = "the state is recorded into " + w.Canon(base) + ", not into pv.LastSignState"
+	chkErr := AR(`\.CheckHRS\(.*\)#1$`, "!=", `^nil$`)
+	chkOK := AR(`\.CheckHRS\(.*\)#1$`, "==", `^nil$`)
+	same := TR(`\.CheckHRS\(.*\)#0$`)
+	notSame := FR(`\.CheckHRS\(.*\)#0$`)
+	has := func(p pathEnd, prefix string) []string {
+		var out []string
+		for _, e := range p.Events {
+			if strings.HasPrefix(e, prefix) {
+				out = append(out, e)
 			}
-		default:
-			locWhy = "the recorder is not applied to this signer (" + w.Canon(base) + ")"
 		}
+		return out
 	}
-	r.Check(locOK, "H-3", key+":save-location", "the recorded state is the signer's own pv.LastSignState (the object every later CheckHRS reads)", "the last-sign record is not written to the signer's own state: "+locWhy, site(w, save))
+	isOK := func(p pathEnd) bool { return p.Term == "ok" || p.Term == "unknown" }
 
-	// the checked HRS must be the message's own height/round (and step)
-	hrOK := len(chkArgs) == 3 && w.isFieldLoad(chkArgs[0], "p1", "Height") && w.isFieldLoad(chkArgs[1], "p1", "Round")
-	if hrOK {
-		if name == "signVote" {
-			c, ok := chkArgs[2].(*ssa.Call)
-			hrOK = ok && callName(c.Common()) == "voteToStep" && len(c.Common().Args) == 1 && c.Common().Args[0] == out
-		} else {
-			c, ok := chkArgs[2].(*ssa.Const)
-			hrOK = ok && c.Value != nil && c.Value.ExactString() == "1"
+	// (1) CheckHRS refused: nothing is signed, nothing released, no success
+	pe, c1 := run(chkErr)
+	guarded := c1 && len(pe) > 0
+	for _, p := range pe {
+		if isOK(p) || len(has(p, "SIGN|")) > 0 || len(has(p, "OUT|")) > 0 {
+			guarded = false
 		}
 	}
-	r.Check(hrOK, "H-2", key+":checked-HRS-is-message-HRS", "CheckHRS receives the message's own height, round and step", "CheckHRS is not called with the message's height/round/step", site(w, chk))
-	// the signed bytes are the sign-bytes of this message
-	sbOK := false
-	if len(signArgs) == 1 {
-		if c, ok := signArgs[0].(*ssa.Call); ok {
-			nm := callName(c.Common())
-			want := map[string]string{"signVote": "VoteSignBytes", "signProposal": "ProposalSignBytes"}[name]
-			sbOK = nm == want && len(c.Common().Args) == 2 && c.Common().Args[0] == fn.Params[1] && c.Common().Args[1] == out
+	r.Check(guarded, "H-2", key+":error-before-sign", "when CheckHRS reports an error nothing is signed or released and the request fails", "PrivKey.Sign is reachable (or a signature is released) although CheckHRS returned an error (regression not refused)", fnSite(w, fn))
+
+	// (2) a new height/round/step
+	pn, c2 := run(chkOK, notSame)
+	lssOK, hrOK, sbOK, argsOK, locOK, orderOK, noSuccessWithoutSave, freshOut := c2, c2, c2, c2, c2, c2, c2, c2
+	nOKnew := 0
+	for _, p := range pn {
+		if os.Getenv("RIGOCHECK_DEBUG") != "" {
+			fmt.Println("DBG", name, p.Term, p.Events)
+		}
+		chk, sign, rec, out := has(p, "CHK|"), has(p, "SIGN|"), has(p, "REC|"), has(p, "OUT|")
+		if len(out) > 0 && len(rec) == 0 {
+			orderOK = false // released without being recorded
+		}
+		if !isOK(p) {
+			continue
+		}
+		nOKnew++
+		if len(chk) != 1 || len(sign) != 1 {
+			lssOK, sbOK = false, false
+			continue
+		}
+		cf := strings.SplitN(chk[0], "|", 3)
+		if cf[1] != "pv" && cf[1] != "copy" {
+			lssOK = false
+		}
+		if cf[2] != "p1.Height, p1.Round, "+wantStep {
+			hrOK = false
+		}
+		sf := strings.SplitN(sign[0], "|", 3)
+		if sf[1] != wantSB {
+			sbOK = false
+		}
+		if len(rec) != 1 {
+			noSuccessWithoutSave = false
+			continue
+		}
+		rf := strings.Split(rec[0], "|")
+		if len(rf) != 7 || rf[1] != "p1.Height" || rf[2] != "p1.Round" || rf[3] != wantStep || rf[4] != sf[1] || rf[5] != sf[2]+"#0" {
+			argsOK = false
+		}
+		if len(rf) == 7 && rf[6] != "pv" {
+			locOK = false
+		}
+		if len(out) != 1 || out[0] != "OUT|"+sf[2]+"#0" {
+			freshOut = false
+		}
+		// order: CHK < SIGN < REC < OUT
+		pos := map[string]int{}
+		for i, e := range p.Events {
+			pos[e[:3]] = i
+		}
+		if !(pos["CHK"] < pos["SIG"] && pos["SIG"] < pos["REC"] && pos["REC"] < pos["OUT"]) {
+			orderOK = false
 		}
 	}
-	r.Check(sbOK, "H-2", key+":signed-bytes-are-message-bytes", "the bytes signed are the canonical sign-bytes of (chainID, message)", "the bytes handed to PrivKey.Sign are not the canonical sign-bytes of this message", site(w, sign))
+	if nOKnew == 0 {
+		r.Undecided("H-2", key+":shape", "no successful path signs a message with a new height/round/step", fnSite(w, fn))
+		return
+	}
+	r.Check(lssOK, "H-2", key+":CheckHRS-on-last-sign-state", "CheckHRS is evaluated (once) on the signer's LastSignState", "CheckHRS is not evaluated on pv.LastSignState", fnSite(w, fn))
+	r.Check(hrOK, "H-2", key+":checked-HRS-is-message-HRS", "CheckHRS receives the message's own height, round and step", "CheckHRS is not called with the message's height/round/step", fnSite(w, fn))
+	r.Check(sbOK, "H-2", key+":signed-bytes-are-message-bytes", "the bytes signed are the canonical sign-bytes of (chainID, message), signed exactly once", "the bytes handed to PrivKey.Sign are not the canonical sign-bytes of this message", fnSite(w, fn))
+	r.Check(freshOut, "H-3", key+":release", "the signature released for a new height/round/step is the one just produced", "the signature released is not the one just produced by PrivKey.Sign", fnSite(w, fn))
+	r.Check(orderOK, "H-3", key+":save-before-release", "the last-sign state is recorded (and saved) before the fresh signature is stored into the message", "the fresh signature is released before the last-sign state is saved", fnSite(w, fn))
+	r.Check(noSuccessWithoutSave, "H-3", key+":no-success-without-save", "every successful path that signs passes the recorder exactly once", "a success return is reachable after PrivKey.Sign without recording the last-sign state", fnSite(w, fn))
+	r.Check(argsOK, "H-3", key+":save-arguments", "the recorder receives the checked (height, round, step), the signed bytes and the signature", "the recorder does not record the values that were checked and signed", fnSite(w, fn))
+	r.Check(locOK, "H-3", key+":save-location", "the recorded state is the signer's own pv.LastSignState (the object every later CheckHRS reads)", "the last-sign record is not written to the signer's own state (e.g. into a local copy of pv.LastSignState: the in-memory state the next CheckHRS reads is not advanced)", fnSite(w, fn))
+
+	// (3) the same height/round/step again
+	ps, c3 := run(chkOK, same)
+	noSign := c3
+	reuseVal := c3
+	nReuse := 0
+	for _, p := range ps {
+		if len(has(p, "SIGN|")) > 0 {
+			noSign = false
+		}
+		for _, o := range has(p, "OUT|") {
+			if o != "OUT|stored" {
+				reuseVal = false
+			} else if isOK(p) {
+				nReuse++
+			}
+		}
+	}
+	r.Check(noSign, "H-2", key+":sign-only-when-not-sameHRS", "nothing is signed when CheckHRS reports the same height/round/step", "PrivKey.Sign is reachable when CheckHRS reported the same HRS (two signatures for one height/round/step)", fnSite(w, fn))
+	if nReuse == 0 {
+		r.Undecided("H-2", key+":reuse", "no re-release of the stored signature found on the sameHRS path (the property requires the original signature to be returned)", fnSite(w, fn))
+	} else {
+		r.Check(reuseVal, "H-2", key+":reuse-value", "the signature re-released on sameHRS is LastSignState.Signature", "a signature other than the stored one is released on the sameHRS path", fnSite(w, fn))
+		// neither the same bytes nor a timestamp-only difference: refused, nothing released
+		sb := regexp.QuoteMeta(wantSB)
+		differ := AR(`^`+sb+`$`, "!=", `\.SignBytes$`)
+		notTS := FR(`OnlyDifferByTimestamp\(.*\)#1$`)
+		pc, c4 := run(chkOK, same, differ, notTS)
+		cond := c4 && len(pc) > 0
+		for _, p := range pc {
+			if isOK(p) || len(has(p, "OUT|")) > 0 {
+				cond = false
+			}
+		}
+		r.Check(cond, "H-2", key+":reuse-condition", "stored signature released only under sameHRS and (bytes.Equal with the stored SignBytes or only-differ-by-timestamp); otherwise the request fails", "stored signature released without the same-message test (conflicting data would be signed off)", fnSite(w, fn))
+	}
+}
+
+// canonResolved prints v with results of module helpers replaced by what the
+// helper returns (when all its returns agree), parameters bound to the arguments.
+func (w *World) canonResolved(v ssa.Value) string {
+	v0 := v
+	for i := 0; i < 4; i++ {
+		var call *ssa.Call
+		idx := 0
+		switch y := stripConv(v).(type) {
+		case *ssa.Call:
+			call = y
+		case *ssa.Extract:
+			call, _ = y.Tuple.(*ssa.Call)
+			idx = y.Index
+		}
+		if call == nil {
+			break
+		}
+		cal := call.Common().StaticCallee()
+		if cal == nil || !w.InModule(cal) || cal.Blocks == nil || len(cal.Params) != len(call.Common().Args) {
+			break
+		}
+		env := map[*ssa.Parameter]string{}
+		for j, p := range cal.Params {
+			env[p] = w.canonResolved(call.Common().Args[j])
+		}
+		var eval func(ssa.Value) (bool, bool) = func(ssa.Value) (bool, bool) { return false, false }
+		if w.cur != nil && w.cur.eval != nil {
+			eval = w.cur.eval
+		}
+		w.inlineEnv = append(w.inlineEnv, env)
+		vals, complete := w.returnedValues(cal, idx, eval, 1)
+		// success returns only: drop nil constants when a non-nil value exists
+		var nonNil []ssa.Value
+		for _, x := range vals {
+			if c, ok := x.(*ssa.Const); ok && c.IsNil() {
+				continue
+			}
+			nonNil = append(nonNil, x)
+		}
+		s := ""
+		if complete && len(nonNil) == 1 {
+			s = w.canonResolved(nonNil[0])
+		}
+		w.inlineEnv = w.inlineEnv[:len(w.inlineEnv)-1]
+		if s != "" {
+			return s
+		}
+		break
+	}
+	return w.Canon(v0)
 }
 
 func (w *World) isLssField(v ssa.Value, lss ssa.Value, name string) bool {
@@ -701,12 +808,16 @@ func h6(w *World, r *Report) {
 		for _, c := range w.callsTo(fn, fref{"github.com/tendermint/tendermint/crypto", "PrivKey", "Sign"}) {
 			nm := w.FName(fn)
 			callers = append(callers, nm+" @"+site(w, c))
-			if nm != "crypto.(*SFilePV).signVote" && nm != "crypto.(*SFilePV).signProposal" {
-				okAll = false
+			allowed := map[string]string{"crypto.(*SFilePV).signVote": "", "crypto.(*SFilePV).signProposal": ""}
+			if _, ok := allowed[nm]; !ok {
+				// a helper that only the two signers reach is still behind their HRS check
+				if _, ok := w.onlyReachedFrom(fn, allowed, 0, map[*ssa.Function]bool{}); !ok {
+					okAll = false
+				}
 			}
 		}
 	}
-	if okAll && len(callers) >= 2 {
+	if okAll && len(callers) >= 1 {
 		r.OK("H-6", "PrivKey.Sign:callers", "the validator key signs only in signVote/signProposal", callers...)
 	} else {
 		r.Violate("H-6", "PrivKey.Sign:callers", "PrivKey.Sign is called outside signVote/signProposal (a signature that bypasses the HRS check)", nil, callers...)
